@@ -158,7 +158,7 @@ func checkProperty(prop, tier, repo, verif string, seed int, t0 time.Time) int {
 	if h, ok := specialChecks[prop]; ok {
 		return h(eng, prop, tier, seed, t0, evPath)
 	}
-	timeout := 30
+	timeout := 45
 	if tier == "thorough" {
 		timeout = 120
 	}
@@ -204,6 +204,7 @@ func checkProperty(prop, tier, repo, verif string, seed int, t0 time.Time) int {
 	var undecided []string
 	violations := 0
 	knownHit := []string{}
+	slow := []string{}
 	covers := 0
 	type fnInfo struct {
 		Name        string `json:"name"`
@@ -240,6 +241,10 @@ func checkProperty(prop, tier, repo, verif string, seed int, t0 time.Time) int {
 			nObl++
 			solverS += o.Seconds
 			if !o.Cover && o.Result == "unsat" {
+				if o.Seconds > 5 {
+					fmt.Printf("SLOW: %.1fs %s (%s)\n", o.Seconds, o.Name, o.Solver)
+					slow = append(slow, fmt.Sprintf("%s %.1fs", o.Name, o.Seconds))
+				}
 				nOK++
 				byBackend[o.Solver]++
 				if len(samples) < 3 {
@@ -313,6 +318,7 @@ func checkProperty(prop, tier, repo, verif string, seed int, t0 time.Time) int {
 		"solver_s":                 round3(solverS),
 		"covers_checked":           covers,
 		"undecided":                undecided,
+		"slow_obligations":         slow,
 		"known_findings_hit":       knownHit,
 		"samples":                  samples,
 		"contract_files":           eng.db.files,
